@@ -117,9 +117,22 @@ class ProtocolRun:
                 out.append(b)
         return out
 
+    @staticmethod
+    def is_private_helper(b):
+        """A private free function / inherent method (not of InputRef itself) that is handed the parser input: an extracted piece of
+        some combinator body.  It has no PEG meaning of its own; it is interpreted in place inside every protocol body that calls
+        it (models.unknown) and judged there."""
+        return (b["kind"] != "Closure" and not b.get("impl_trait") and not b.get("in_trait") and not b.get("public")
+                and b.get("impl_self_adt") != "input::InputRef")
+
     def run(self):
         todo = [b for b in self.facts.bodies if is_protocol_body(b)]
-        self._run(todo)
+        helpers = [b for b in todo if self.is_private_helper(b)]
+        self._run([b for b in todo if not self.is_private_helper(b)])
+        # a helper nobody inlined (unused, or reached only through an unanalysed path) is analysed as a body of its own
+        inl = getattr(self.I, "inlined_helpers", set())
+        self.helpers_judged_in_callers = [b["uname"] for b in helpers if b["key"] in inl]
+        self._run([b for b in helpers if b["key"] not in inl])
         self._run(self.closure_bodies(), closure=True)
         return self
 
